@@ -5,6 +5,7 @@ package queue
 import (
 	"bufio"
 	"context"
+	"database/sql"
 	"encoding/json"
 	"fmt"
 	"os"
@@ -44,6 +45,37 @@ type C01Case struct {
 	Label     string    `json:"label"`
 	Nth       int       `json:"nth"`
 	Reopen    string    `json:"reopen,omitempty"` // label at which a second child dies while re-opening the db
+	// Legacy: the database file was left behind by an older build at schema version Legacy (1..5) with
+	// one accepted message in it; the child's start is the upgrade (0: fresh file).
+	Legacy int `json:"legacy,omitempty"`
+}
+
+var c01Schemas = []string{schemaV1, schemaV2, schemaV3, schemaV4, schemaV5, schemaV6}
+
+const c01LegacyID = "legacy-0"
+
+// c01LegacyDB writes what a build of schema version v left behind: its tables, its version row, one queued message.
+func c01LegacyDB(dbPath string, v int) error {
+	raw, err := sql.Open("sqlite", dbPath)
+	if err != nil {
+		return err
+	}
+	defer raw.Close()
+	stmts := []string{`PRAGMA journal_mode=WAL;`, `CREATE TABLE schema_migrations (version INTEGER NOT NULL);`}
+	stmts = append(stmts, c01Schemas[:v]...)
+	for _, q := range stmts {
+		if _, err := raw.Exec(q); err != nil {
+			return fmt.Errorf("%v in %.60q", err, q)
+		}
+	}
+	if _, err := raw.Exec(`INSERT INTO schema_migrations(rowid, version) VALUES (1, ?);`, v); err != nil {
+		return err
+	}
+	now := time.Now().Add(-time.Hour).UnixNano()
+	_, err = raw.Exec(`
+INSERT INTO queue_items (id, route, target, state, received_at, attempt, next_run_at, payload, headers_json, trace_json, schema_version, lease_id, lease_until)
+VALUES (?, '/legacy', 'pull', 'queued', ?, 0, ?, x'6f6c64', NULL, NULL, 1, NULL, NULL);`, c01LegacyID, now, now)
+	return err
 }
 
 var c01Labels = []string{"sqlite.begin", "sqlite.commit.before", "sqlite.commit.after", "sqlite.enqueue.insert.before", "sqlite.enqueue.insert.after",
@@ -127,8 +159,40 @@ func genC01Case() *rapid.Generator[C01Case] {
 			c.Nth = rapid.IntRange(1, 6).Draw(t, "migrate_nth")
 		}
 		c.Reopen = rapid.SampledFrom([]string{"", "", "", "sqlite.begin", "sqlite.commit.before", "sqlite.commit.after"}).Draw(t, "reopen")
+		if rapid.IntRange(0, 3).Draw(t, "legacy") == 0 {
+			c.Legacy = rapid.IntRange(1, len(c01Schemas)-1).Draw(t, "legacy_version")
+		}
 		return c
 	})
+}
+
+// c01SecondRestart: the process is restarted once more on the same file (no crash this time): the queue
+// opens again and holds the same messages.
+func c01SecondRestart(st *SQLiteStore, dbPath string, ropts []SQLiteOption, c C01Case, before Snap) *verifkit.Failure {
+	if err := st.Close(); err != nil {
+		return fail("HARNESS", "close", 0, "%v", err)
+	}
+	st2, err := NewSQLiteStore(dbPath, ropts...)
+	if err != nil {
+		return fail("C01", "reopen-failed", 0, "the queue opened after the crash at %s:%d but refuses to open at the next restart (file started at schema v%d): %v", c.Label, c.Nth, c.Legacy, err)
+	}
+	defer st2.Close()
+	w := &qWorld{sql: st2, st: st2}
+	after, err := w.snapshot()
+	if err != nil {
+		return fail("C01", "snapshot", 0, "%v", err)
+	}
+	for id := range before {
+		if _, ok := after[id]; !ok {
+			return fail("C01", "durability", 0, "%s was stored after the crash and is gone after one more restart", id)
+		}
+	}
+	for id := range after {
+		if _, ok := before[id]; !ok {
+			return fail("C01", "message-from-nowhere", 0, "%s appeared at the second restart", id)
+		}
+	}
+	return nil
 }
 
 // ackLine is one record of the child's log.
@@ -404,6 +468,17 @@ func runC01Store(c C01Case, _ bool) qOutcome {
 	markPath := filepath.Join(dir, "mark")
 	raw, _ := json.Marshal(c)
 	_ = os.WriteFile(casePath, raw, 0o644)
+	if c.Legacy > 0 {
+		if c.Legacy >= len(c01Schemas) {
+			out.Skipped = "no older schema of that version"
+			return finish()
+		}
+		if err := c01LegacyDB(dbPath, c.Legacy); err != nil {
+			out.Failure = fail("HARNESS", "legacy-db", 0, "%v", err)
+			return finish()
+		}
+		labels[fmt.Sprintf("legacy-schema-v%d", c.Legacy)] = true
+	}
 	cmd := exec.Command(os.Args[0], "-test.run", "^TestChild_C01_Store$")
 	cmd.Env = append(os.Environ(), "VERIF_CHILD_DB="+dbPath, "VERIF_CHILD_CASE="+casePath, "VERIF_CHILD_LOG="+logPath,
 		"VERIF_CRASH="+fmt.Sprintf("%s:%d", c.Label, c.Nth), "VERIF_CRASH_MARK="+markPath, "VERIF_STATS=", "VERIF_FAILDIR=")
@@ -503,11 +578,27 @@ func runC01Store(c C01Case, _ bool) qOutcome {
 	if !opened {
 		// the child died while opening/migrating: nothing was ever acknowledged
 		labels["crash-while-opening"] = true
-		if len(snap) != 0 {
-			out.Failure = fail("C01", "message-from-nowhere", 0, "db has %d messages although the child never finished opening", len(snap))
+		want := 0
+		if c.Legacy > 0 {
+			want = 1
+		}
+		if len(snap) != want {
+			out.Failure = fail("C01", "message-from-nowhere", 0, "db has %d messages although the child never finished opening (%d were in the file before)", len(snap), want)
 		}
 		out.NonTriv = crashed
+		if out.Failure == nil {
+			out.Failure = c01SecondRestart(st, dbPath, ropts, c, snap)
+		}
 		return finish()
+	}
+	if c.Legacy > 0 {
+		m, ok := snap[c01LegacyID]
+		if !ok && c.Drop == "drop_oldest" && c.Depth > 0 {
+			labels["queued-maybe-evicted"] = true // the oldest queued message of a full drop_oldest queue
+		} else if !ok || m.State != "queued" || m.Route != "/legacy" || string(m.Payload) != "old" {
+			out.Failure = fail("C01", "durability", 0, "the message the older build (schema v%d) had accepted is not there as it was after the upgrade and the crash at %s:%d: %s", c.Legacy, c.Label, c.Nth, fmtOpt(m, ok))
+			return finish()
+		}
 	}
 	// ---- expectation per goroutine: acked prefix, plus the in-flight op applied or not
 	acked, inflight := 0, 0
@@ -637,6 +728,7 @@ func runC01Store(c C01Case, _ bool) qOutcome {
 	if acked > 0 {
 		labels["acked-before-crash"] = true
 	}
+	out.Failure = c01SecondRestart(st, dbPath, ropts, c, snap)
 	return finish()
 }
 
